@@ -88,6 +88,26 @@ class C04(Prop):
             s = [rng.choice(hcm.NEAR_TIE_LEVELS) for _ in range(n)]
             if two_distinct(s):
                 yield {"kind": "seq", "law": "linear", "samples": s, "ratios": [1]}
+        for _ in range(nrand // 2):
+            # doubles that are not integers, with load ranges that differ by 2**-7 ... 2**-33 (all values and differences exact in
+            # double, every gap far above the 1e-12 the code uses as its comparison tolerance): the counting compares ranges
+            # exactly; a coarser tolerance in the code decides these differently (oracle only: the model's loads are integers)
+            n = rng.randint(3, 9)
+            e = rng.choice([7, 20, 33])
+            s = [rng.choice([0.0, 50.0, -50.0, 100.0, -100.0, 25.0]) + rng.choice([-2, -1, 0, 0, 1, 2]) * 2.0 ** -e for _ in range(n)]
+            if two_distinct(s):
+                yield {"kind": "float", "law": "linear", "samples": s, "ratios": [1]}
+        for _ in range(nrand // 5):
+            # deeply nested hystereses closed by one large excursion (residual depth 6-10, 3-5 closures by one sample)
+            d = rng.randint(3, 5)
+            top = 100 * (d + 2)
+            s = []
+            for i in range(d):
+                s += [top - 100 * i, -(top - 100 * i) + 50]
+            s += [rng.choice([top + 100, -(top + 100)]), rng.choice([0, 100, -100])]
+            if rng.random() < 0.5:
+                s = [-x for x in s]
+            yield {"kind": "seq", "law": rng.choice(["linear", "sat"]), "samples": s, "ratios": [1]}
         # exhaustive small scope for the multi-point path
         for n in range(2, 5):
             for s in itertools.product(LEVELS, repeat=n):
@@ -159,8 +179,11 @@ class C04(Prop):
         if case["kind"] == "multi":
             return self._oracle_multi(case)
         rows = self._pass2(s, law)
-        if case["kind"] == "seq":
-            p2 = sorted((int(r["loads_min"][0]), int(r["loads_max"][0])) for r in rows if r["run_index"][0] == 2)
+        if case["kind"] in ("seq", "float"):
+            if case["kind"] == "float":
+                self.stats["float_cases"] = self.stats.get("float_cases", 0) + 1
+            cv = (lambda x: float(x)) if case["kind"] == "float" else (lambda x: int(x))
+            p2 = sorted((cv(r["loads_min"][0]), cv(r["loads_max"][0])) for r in rows if r["run_index"][0] == 2)
             want = hcm.periodic_rainflow(s)
             if p2 != want:
                 return (f"pass-2 load ranges {p2} != closed cycles of the repeated sequence {want} (sequence {s})", junction_failure_class(s))
